@@ -10,7 +10,7 @@ from .pyflow import Sig, bind, dotted, callee_name
 from .pyrules import module, norm, local_defs
 from .report import repo_path, REPO, AnalysisError
 
-LEVEL = 'other'
+LEVEL = 'proof'
 CONECYL = 'compmech/conecyl/conecyl.py'
 MODELDB = 'compmech/conecyl/modelDB.py'
 S, C = P.sym, P.const
@@ -209,7 +209,7 @@ def r16_5(chk):
 
 def run(chk):
     chk.level = LEVEL
-    chk.trusted = ['python3 ast', 'E1 lowering']
+    chk.trusted = ['python3 ast', 'E1 lowering', 'Fraction polynomial arithmetic (poly.P)', 'product-to-sum and closed antiderivatives of x^p sin/cos(w x) (shellenergy)', 'C01 (A, B, D symmetric; transverse-shear block uncoupled)']
     chk.assumptions = ['R16.7 decides the energy identity with the section radius frozen at its mid-section value, exactly as the cone kernels integrate (the documented section quadrature); '
                        'the limit s -> infinity is not part of the statement decided',
                        'positive semi-definiteness is decided only as a consequence of R16.7 (a Gram form of a PSD laminate matrix) for the classical models that pass it; not for the first-order-shear models',
